@@ -250,21 +250,26 @@ Proof. unfold pieces. rewrite fill_concat. reflexivity. Qed.
 Theorem wrap_breaks_between_runs s : concat (pieces s) = chunks s /\ concat (chunks s) = s /\ exists k, alt_from k (chunks s).
 Proof. split; [apply pieces_concat | split; [apply chunks_concat | apply chunks_alt_ex]]. Qed.
 
+Lemma mark_tokens s : ~ In cEq s -> split_ws (logical (mark_lines true (pieces s))) = split_ws s.
+Proof.
+  intros H. destruct (chunks_alt_ex s) as [k K].
+  rewrite logical_mark by (rewrite pieces_concat, chunks_concat; exact H).
+  rewrite (pieces_tokens _ k) by (rewrite pieces_concat; exact K).
+  rewrite pieces_concat. rewrite <- (split_chunks _ k K), chunks_concat. reflexivity.
+Qed.
+
 Theorem wrap_tokens s : ~ In cEq s -> tokens (wrap_lines s) = split_ws s.
 Proof.
-  intros H. unfold tokens, wrap_lines. destruct (length s <? 79).
+  intros H. unfold tokens, wrap_lines. destruct (length s <? 81).
   - unfold logical. cbn [map concat]. rewrite app_nil_r, before_absent by exact H. reflexivity.
   - destruct (pieces s) as [|p ps] eqn:E.
     + assert (Z : chunks s = []) by (rewrite <- pieces_concat, E; reflexivity). apply chunks_nil in Z. subst. reflexivity.
-    + rewrite <- E. destruct (chunks_alt_ex s) as [k K].
-      rewrite logical_mark by (rewrite pieces_concat, chunks_concat; exact H).
-      rewrite (pieces_tokens _ k) by (rewrite pieces_concat; exact K).
-      rewrite pieces_concat. rewrite <- (split_chunks _ k K), chunks_concat. reflexivity.
+    + rewrite <- E. apply mark_tokens. exact H.
 Qed.
 
 Theorem wrap_length s : runs_short s -> Forall (fun l => length l <= max_columns) (wrap_lines s).
 Proof.
-  intros H. unfold wrap_lines. destruct (length s <? 79) eqn:L.
+  intros H. unfold wrap_lines. destruct (length s <? 81) eqn:L.
   - apply Nat.ltb_lt in L. constructor; [unfold max_columns; lia | constructor].
   - change (pieces s) with (fill 77 75 [] 0 (chunks s)).
     assert (B : bounded 77 75 (fill 77 75 [] 0 (chunks s))) by (apply fill_bound; [exact H | lia | reflexivity | lia]).
@@ -278,7 +283,7 @@ Qed.
 
 Theorem wrap_cont s : cont_ok true (wrap_lines s).
 Proof.
-  unfold wrap_lines. destruct (length s <? 79); [left; reflexivity|].
+  unfold wrap_lines. destruct (length s <? 81); [left; reflexivity|].
   destruct (pieces s) eqn:E; [left; reflexivity | rewrite <- E; apply mark_lines_cont].
 Qed.
 
@@ -321,7 +326,7 @@ Qed.
 
 Theorem fvar_lines_shape vals :
   exists gs, fvar_lines vals = map (fun g => lit "FVAR   " ++ join (lit "   ") g) gs /\ concat gs = vals
-             /\ Forall (fun g => 1 <= length g <= 7) gs.
+             /\ Forall (fun g => (1 <= length g <= 7)%nat) gs.
 Proof.
   exists (groups 7 vals). split; [reflexivity|]. unfold groups. apply groups_fuel_spec; lia.
 Qed.
